@@ -3,9 +3,13 @@ import itertools
 from props.base import PropBase
 
 
-def rand_path(rnd, maxlen=4, tmax=6):
+def rand_path(rnd, maxlen=4, tmax=6, scale=None):
     n = rnd.randint(1, maxlen)
     ts = sorted(rnd.sample(range(0, tmax + 3), n))
+    if scale is not None:
+        # epoch-size instants (seconds .. nanoseconds): durations of 1e9 .. 1e18 that differ by one or two units
+        base, stretch = scale
+        ts = [base + t * stretch + (t % 3) for t in ts]
     nodes = [rnd.randint(1, 4) for _ in range(n + 1)]
     return [(nodes[i], nodes[i + 1], ts[i]) for i in range(n)]
 
@@ -43,7 +47,10 @@ class C14(PropBase):
 
     def random_cases(self, rnd, n):
         for _ in range(n):
-            ps = [rand_path(rnd) for _ in range(rnd.randint(1, 7))]
+            scale = None
+            if rnd.random() < 0.25:
+                scale = (rnd.choice([1700000000, 1700000000000, 1700000000000000000 // 1024, 0]), rnd.choice([10 ** 9, 10 ** 12, 2 * 10 ** 9 + 1]))
+            ps = [rand_path(rnd, scale=scale) for _ in range(rnd.randint(1, 7))]
             if rnd.random() < 0.4:
                 ps.append(list(rnd.choice(ps)))
             rnd.shuffle(ps)
